@@ -131,7 +131,7 @@ struct RaceBusy { RaceBusy() { race_busy++; } ~RaceBusy() { race_busy--; } };
 static constexpr int MAXT = 8;
 enum Status { RUNNABLE = 0, PARKED = 1, BLOCKED = 2, DONE = 3, WAITSTART = 4 };
 static int start_after[8];
-enum Mode { M_DFS = 0, M_RANDOM = 1, M_REPLAY_TIDS = 2 };
+enum Mode { M_DFS = 0, M_RANDOM = 1, M_REPLAY_TIDS = 2, M_REPLAY_SEGS = 3 };
 
 static volatile bool active = false;
 static thread_local int my_tid = -1;
@@ -156,6 +156,7 @@ static std::vector<Dec> decs;       // decision stack (prefix given by parent, e
 static size_t dec_depth = 0;
 static std::vector<int> tidtrace;   // thread chosen at every scheduling point
 static std::vector<int> replay_tids;
+static size_t seg_pos = 0;         // M_REPLAY_SEGS: cursor into replay_tids
 static bool diverged = false;
 // random mode
 static std::vector<long> rnd_points; // scheduling point indices at which to preempt
@@ -266,7 +267,7 @@ static int pick(int me) {
     me_ok = false;
   }
   int avail = n;
-  if (me_ok && mode != M_REPLAY_TIDS && preempt_used >= pb) avail = 1;
+  if (me_ok && mode != M_REPLAY_TIDS && mode != M_REPLAY_SEGS && preempt_used >= pb) avail = 1;
   int choice = 0;
   long point = (long)tidtrace.size();
   if (mode == M_REPLAY_TIDS) {
@@ -274,6 +275,15 @@ static int pick(int me) {
       int want = replay_tids[point]; bool found = false;
       for (int i = 0; i < n; i++) if (opts[i] == want) { choice = i; found = true; }
       if (!found) diverged = true;
+    }
+  } else if (mode == M_REPLAY_SEGS) {
+    // directed schedule written by hand: segments "thread t for at most k steps"; a segment whose thread cannot run (blocked,
+    // finished) is skipped; afterwards the running thread continues
+    while (seg_pos < replay_tids.size()) {
+      int want = replay_tids[seg_pos]; bool found = false;
+      for (int i = 0; i < n; i++) if (opts[i] == want) { choice = i; found = true; }
+      if (found) { seg_pos++; break; }
+      while (seg_pos < replay_tids.size() && replay_tids[seg_pos] == want) seg_pos++;
     }
   } else if (avail > 1) {
     if (mode == M_DFS) {
@@ -601,9 +611,16 @@ static void step_ev(const char* kind, const void* a, uint64_t v, int mo, int ok,
   RaceBusy rb_;
   if (!log_steps || !active || my_tid < 0) return;
   long vv; long vp = 0;
-  for (int i = 0; i < n_named; i++) if (v >= named[i].base && v < named[i].base + named[i].elem * named[i].count) {
+  // marked_ptr keeps its mark in the 16 topmost bits: a pointer into a named range is recorded as b = -2, v = index + (top16 << 20);
+  // a null pointer that carries only a mark as b = -3, v = top16
+  const uint64_t lowv = v & 0x0000ffffffffffffull; const long top16 = (long)(v >> 48);
+  for (int i = 0; i < n_named; i++) if (lowv >= named[i].base && lowv < named[i].base + named[i].elem * named[i].count) {
     logf("{\"e\":\"%s\",\"t\":%d,\"op\":\"%s\",\"a\":%d,\"b\":-2,\"r\":%d,\"v\":%ld,\"pc\":\"%lx\"}\n", kind, my_tid, mo_name(mo), a ? loc_id(a) : 0, ok,
-         named[i].first + (long)((v - named[i].base) / named[i].elem), (unsigned long)pc);
+         named[i].first + (long)((lowv - named[i].base) / named[i].elem) + (top16 << 20), (unsigned long)pc);
+    return;
+  }
+  if (lowv == 0 && top16 != 0) {
+    logf("{\"e\":\"%s\",\"t\":%d,\"op\":\"%s\",\"a\":%d,\"b\":-3,\"r\":%d,\"v\":%ld,\"pc\":\"%lx\"}\n", kind, my_tid, mo_name(mo), a ? loc_id(a) : 0, ok, top16, (unsigned long)pc);
     return;
   }
   uint64_t base = v & ~(uint64_t)0xffff000000000007ull;
@@ -945,11 +962,11 @@ int explore_main(int argc, char** argv, const std::function<Scenario(const std::
   };
 
   if (modes == "replay") {
-    // replay file: line 1 program, line 2 "#DEC c/n ..." or "#TIDS t*k ..."
+    // replay file: line 1 program, line 2 "#DEC c/n ..." or "#TIDS t*k ..." (exact) or "#SEG t*k ..." (directed: at most k steps, skipped if not runnable)
     std::ifstream f(replay_file); std::string prog, l2; std::getline(f, prog); std::getline(f, l2);
     ChildCtl c; std::istringstream l(l2); std::string tag; l >> tag; std::string tok;
     if (tag == "#DEC") { c.mode = M_DFS; while (l >> tok) { int ch = 0, n = 0; sscanf(tok.c_str(), "%d/%d", &ch, &n); c.prefix.push_back({ch, n}); } }
-    else { c.mode = M_REPLAY_TIDS; while (l >> tok) { int t = 0; long k = 1; sscanf(tok.c_str(), "%d*%ld", &t, &k); for (long j = 0; j < k; j++) c.tids.push_back(t); } }
+    else { c.mode = tag == "#SEG" ? M_REPLAY_SEGS : M_REPLAY_TIDS; while (l >> tok) { int t = 0; long k = 1; sscanf(tok.c_str(), "%d*%ld", &t, &k); for (long j = 0; j < k; j++) c.tids.push_back(t); } }
     c.solo_at = r_solo_at; c.solo_thread = r_solo_thread;
     ChildResult r = run_child(make, prog, c, alarm_s);
     emit(prog, 0, r);
